@@ -512,4 +512,154 @@ theorem wire_re (os : List AnyObj) : ∀ (ps ps' : List LayerInfo) (k : Nat),
     | app _ => exact hs.elim
     | wifi _ => exact hs.elim
 
+/-! ### the re-parsed stack is again a stack `PDU::serialize` is total on -/
+
+theorem link_serializable (x : Obj) (n : Next) (h : Link x n) : Serializable x := by
+  cases x <;> first | trivial | (cases n <;> simp [Link] at h)
+
+theorem stackable_good (os : List AnyObj) (h : Stackable os) : Good os := by
+  induction os with
+  | nil => trivial
+  | cons a r ih =>
+    cases a with
+    | raw p => exact h
+    | l2 x => exact ⟨h.1, link_serializable x _ h.2.1, ih h.2.2⟩
+    | ip _ => exact h.elim
+    | ip6 _ => exact h.elim
+    | icmp _ => exact h.elim
+    | tr _ => exact h.elim
+    | app _ => exact h.elim
+    | wifi _ => exact h.elim
+
+theorem llc_normal_inv (l : Llc) (h : l.Inv) : l.normal.Inv := by
+  unfold Llc.normal
+  split
+  · exact ⟨h.dsap, h.ssap, h.c0, Nat.zero_lt_succ _, h.ctl, h.bits, h.info⟩
+  · exact h
+
+/-- the re-parsed layer satisfies the invariant again -/
+theorem wr_inv (ps : List LayerInfo) (x : Obj) (os : List AnyObj) (hi : ObjInv x) (hl : Link x (next os)) :
+    ObjInv (wr (cxOf ps os) x) ∧ Serializable (wr (cxOf ps os) x) := by
+  cases x with
+  | eth e => exact ⟨⟨hi.dst, hi.src, eth_tagFor_lt _ e hi⟩, trivial⟩
+  | dot3 d => exact ⟨⟨hi.dst, hi.src, Nat.mod_lt _ (by decide)⟩, trivial⟩
+  | llc l => exact ⟨llc_normal_inv l hi, trivial⟩
+  | snap s => exact ⟨⟨hi.dsap, hi.ssap, hi.control, hi.org, snap_tagFor_lt _ s hi⟩, trivial⟩
+  | dot1q q => exact ⟨⟨hi.priority, hi.cfi, hi.id, dot1q_tagFor_lt _ q hi⟩, trivial⟩
+  | mpls m => exact ⟨mpls_written_wf _ m hi, trivial⟩
+  | sll s => exact ⟨⟨hi.packetType, hi.lladdrType, hi.lladdrLen, hi.address, sll_tagFor_lt _ s hi⟩, trivial⟩
+  | loopback l => exact ⟨loopback_familyFor_lt _ l hi, trivial⟩
+  | pppoe p =>
+    refine ⟨⟨hi.version, hi.type, hi.code, hi.sessionId, ?_, hi.size, hi.tags⟩, trivial⟩
+    show (if p.code = 0 then (cxOf ps os).innerSize else p.tagsSize) < 65536
+    cases hn : next os with
+    | none =>
+      have := next_none hn; subst this
+      rw [hn] at hl
+      have h2 : (p.code = 0 → p.tags = []) ∧ p.tagsSize < 65536 := by simpa [Link] using hl
+      split
+      · rw [cxOf_innerSize_nil]; decide
+      · exact h2.2
+    | raw b =>
+      have := next_raw hn; subst this
+      rw [hn] at hl
+      have h3 : p.code = 0 ∧ p.tags = [] ∧ b.length < 65536 := by simpa [Link] using hl
+      rw [if_pos h3.1, cxOf_innerSize_raw]; exact h3.2.2
+    | l2 y r => rw [hn] at hl; simp [Link] at hl
+    | bad => rw [hn] at hl; simp [Link] at hl
+  | ppi p => cases hn : next os <;> rw [hn] at hl <;> simp [Link] at hl
+  | pktap p => cases hn : next os <;> rw [hn] at hl <;> simp [Link] at hl
+
+theorem re_good (os : List AnyObj) : ∀ (ps : List LayerInfo) (k : Nat), Stackable os → Good (re ps os k) := by
+  induction os with
+  | nil => intro _ _ _; trivial
+  | cons a r ih =>
+    intro ps k h
+    cases a with
+    | raw p => rfl
+    | l2 x =>
+      have := wr_inv ps x r h.1 h.2.1
+      exact ⟨this.1, this.2, ih _ _ h.2.2⟩
+    | ip _ => exact h.elim
+    | ip6 _ => exact h.elim
+    | icmp _ => exact h.elim
+    | tr _ => exact h.elim
+    | app _ => exact h.elim
+    | wifi _ => exact h.elim
+
+/-! ### the theorem -/
+
+/-- **C03 / L2, whole packets, second half — full statement**: serializing the re-parsed packet reproduces the bytes
+    whenever the innermost payload is non-empty -/
+def l2_chain_reserialize_fixpoint : Prop :=
+  ∀ (o : AnyObj) (os : List AnyObj) (out : Bytes) (os' : List AnyObj), Stackable (o :: os) →
+    (splitRaw (o :: os)).2 ≠ [] → serializeObjs (o :: os) = .ok out →
+    parseChain (out.length + 2) o.info.1 out = .ok os' → serializeObjs os' = .ok out
+
+/-- **… proved part** (`PadKept`: no Dot1Q that pads on behalf of `append_padding_` above a PPPoE layer — object state that
+    is not on the wire, KF-C04-L2-4; every parsed stack satisfies it, see `padKept_of_noAppend`): for every representable
+    stack of any depth with a non-empty innermost payload, the second serialization equals the first -/
+theorem l2_chain_reserialize_fixpoint_partial (o : AnyObj) (os : List AnyObj) (out : Bytes) (os' : List AnyObj)
+    (hs : Stackable (o :: os)) (hk : PadKept (o :: os)) (hp : (splitRaw (o :: os)).2 ≠ [])
+    (hser : serializeObjs (o :: os) = .ok out) (hpar : parseChain (out.length + 2) o.info.1 out = .ok os') :
+    serializeObjs os' = .ok out := by
+  have hout : out = wire [] (o :: os) := by
+    have := (serializeObjs_wire _ (stackable_good _ hs)).symm.trans hser
+    injection this with this
+    exact this.symm
+  have hre : os' = re [] (o :: os) 0 := by
+    cases o with
+    | raw p =>
+      have hr : os = [] := hs
+      subst hr
+      have hw : wire [] [AnyObj.raw p] = p := rfl
+      rw [hw] at hout
+      subst hout
+      have : parseChain (out.length + 2) "RawPDU" out = .ok [.raw out] := by
+        simp [parseChain, modelled, parseOne]
+      have := this.symm.trans hpar
+      injection this with this
+      rw [← this]
+      simp [re]
+    | l2 x =>
+      rcases chain_reparse_aux os x [] (List.replicate (Wire.sizeOf (sems (.l2 x :: os))) 0) 0 hs (by simp [sems])
+        (.inl rfl) with ⟨out', hser', hl, hpar'⟩
+      have : out' = out := by
+        have := hser'.symm.trans hser
+        injection this
+      subst this
+      rcases hpar' (out'.length + 2) (by omega) with ⟨os'', hp', _, hre⟩
+      rw [List.replicate_zero, List.append_nil] at hp'
+      have := hp'.symm.trans hpar
+      injection this with this
+      rw [← this]
+      exact hre hp
+    | ip _ => exact hs.elim
+    | ip6 _ => exact hs.elim
+    | icmp _ => exact hs.elim
+    | tr _ => exact hs.elim
+    | app _ => exact hs.elim
+    | wifi _ => exact hs.elim
+  rw [hre, serializeObjs_wire _ (re_good _ [] 0 hs), hout,
+    (wire_re (o :: os) [] [] 0 hs hk hp rfl (fun _ _ _ => .inl rfl)).1, pk_zero]
+  simp
+
+/-- stacks without a padding Dot1Q — in particular every stack that came out of a parser (`Dot1Q.parse` clears
+    `append_padding_`) — are not affected by the exclusion -/
+def NoAppend : List AnyObj → Prop
+  | [] => True
+  | .l2 (.dot1q q) :: r => q.appendPadding = false ∧ NoAppend r
+  | _ :: r => NoAppend r
+
+theorem padKept_of_noAppend (os : List AnyObj) (h : NoAppend os) : PadKept os := by
+  induction os with
+  | nil => trivial
+  | cons a r ih =>
+    cases a with
+    | l2 x =>
+      cases x with
+      | dot1q q => exact ⟨fun ht => absurd (h.1.symm.trans ht) (by decide), ih h.2⟩
+      | _ => exact ih h
+    | _ => exact ih h
+
 end Tins.Wire.L2
